@@ -76,6 +76,11 @@ def clamp_sites():
         if not re.match(r'CLIP3\(scs_ptr->static_config\.min_qp_allowed,scs_ptr->static_config\.max_qp_allowed,', e):
             probs.append('picture_qp clipped with other bounds than (min_qp_allowed, max_qp_allowed): ' + e[:160])
     stats['picture_qp_clips'] = len(clip_qp)
+    # every assignment to the picture's own QP in the kernel is the configured qp (fixed-offset path) or a clip between the configured bounds
+    for m_ in re.finditer(r'(?<![A-Za-z0-9_>])pcs_ptr->picture_qp\s*=(?!=)([^;]*);', txt):
+        e = norm(m_.group(1))
+        if e != 'scs_ptr->static_config.qp' and not re.match(r'CLIP3\(scs_ptr->static_config\.min_qp_allowed,scs_ptr->static_config\.max_qp_allowed,', e):
+            probs.append('picture_qp assigned without the clip between min_qp_allowed and max_qp_allowed: ' + e[:160])
     last_lookup = max([p_ for p_, r_ in sites if r_ == 'quantizer_to_qindex[pcs_ptr->picture_qp]'], default=None)
     if last_lookup is not None:
         before = [p_ for p_, e in clip_qp if p_ < last_lookup]
